@@ -195,7 +195,7 @@ func perioHistory(evs []perioEvent) []perioObs {
 	rec := &perioRec{}
 	s.Handle(rec, rec.query)
 	closed := false   // Serve has returned (observed through wg)
-	patience := 2 * time.Second
+	patience := 5 * time.Second
 	for i := range evs {
 		e := &evs[i]
 		rec.mu.Lock()
